@@ -178,6 +178,10 @@ func (p *Parser) ParseProgram() *ast.Statements {
 		program.Statements = append(program.Statements, stmt)
 		p.nextToken()
 	}
+	if p.curToken.Type() == token.EOL && p.l.Unterminated() {
+		// The line ends inside a string that starts a statement: like anywhere else, more input is needed.
+		p.continuationNeeded = true
+	}
 
 	return program
 }
@@ -431,6 +435,10 @@ func (p *Parser) parseGroupedExpression() ast.Node {
 	if p.curTokenIs(token.RPAREN) && p.peekTokenIs(token.LAMBDA) { // () => { ... } case
 		p.nextToken()
 		return p.parseLambdaMulti(nil)
+	}
+	if p.curTokenIs(token.RPAREN) && p.peekTokenIs(token.EOL) { // () at the end of the line: the => may be on the next one.
+		p.continuationNeeded = true
+		return nil
 	}
 	exp := p.parseExpression(ast.LOWEST)
 	log.Debugf("parseGroupedExpression: %#v", exp)
